@@ -5,9 +5,9 @@ import json, subprocess, sys, tempfile, os, xml.etree.ElementTree as ET
 repo = sys.argv[1] if len(sys.argv) > 1 else "/repo"
 base = json.load(open("/root/.vp/BASELINE.json"))
 stable = set(base["stable_pass"])
+env = dict(os.environ); env.pop("WARNER_PYTHON_ECDSA_VERIF", None)
 with tempfile.TemporaryDirectory() as td:
     jx = os.path.join(td, "j.xml")
-    env = dict(os.environ); env.pop("WARNER_PYTHON_ECDSA_VERIF", None)
     subprocess.run(["/venv/bin/python", "-m", "pytest", "-q", "-p", "no:cacheprovider", "--timeout=900",
                     "--continue-on-collection-errors", "--junitxml=" + jx], cwd=repo, env=env,
                    stdout=subprocess.DEVNULL, stderr=subprocess.DEVNULL)
@@ -16,6 +16,27 @@ with tempfile.TemporaryDirectory() as td:
         ok = not any(c.tag in ("failure", "error", "skipped") for c in tc)
         if ok: passed.add(tc.get("classname") + "::" + tc.get("name"))
 missing = sorted(stable - passed)
+# a few baseline tests are flaky on their own (hypothesis draws): re-run the missing ones up to twice
+for attempt in range(2):
+    if not missing or len(missing) > 20:
+        break
+    still = []
+    for m in missing:
+        mod, _, rest = m.partition("::")
+        parts = mod.split(".")
+        # classname is e.g. src.ecdsa.test_jacobi.TestJacobi ; file = src/ecdsa/test_jacobi.py
+        for cut in range(len(parts), 0, -1):
+            f = os.path.join(repo, *parts[:cut]) + ".py"
+            if os.path.exists(f):
+                node = f + "".join("::" + x for x in parts[cut:]) + "::" + rest
+                break
+        else:
+            still.append(m); continue
+        r = subprocess.run(["/venv/bin/python", "-m", "pytest", "-q", "-p", "no:cacheprovider", "--timeout=900", node],
+                           cwd=repo, env=env, stdout=subprocess.DEVNULL, stderr=subprocess.DEVNULL)
+        if r.returncode != 0:
+            still.append(m)
+    missing = still
 print("stable_pass=%d passed_of_those=%d missing=%d" % (len(stable), len(stable & passed), len(missing)))
 for m in missing[:20]: print("  NOT PASSING:", m)
 sys.exit(1 if missing else 0)
